@@ -50,3 +50,23 @@ claimed("C15", "exploration",
   "Key store with fault injection: stored COSE_Keys of every type are corrupted (byte-level and structural) and loaded; accepted implies the reference consistency predicate and a canonical re-encoding fixpoint; Signer()/Verifier() success implies private/public material, permitting key_ops and the algorithm fixed by the key.",
   "Reference key predicate transcribes the statement; non-bstr coordinate parameters are not judged.",
   "deterministic simulation with fault injection (storage faults on keys at rest, reference predicate)", "3/C15")
+claimed("C08", "exploration",
+  "Seeded simulation on an instrumented scratch copy in which the iteration order of every range-over-map loop of go-cose is a tape decision (the schedule dimension the statement names): each object is encoded 6 times under different permutations and in two OS processes; outputs must be byte-equal, deterministic CBOR (reference predicate, inside protected headers too), the signed protected bytes must be the emitted ones, and every encoder/helper output must be accepted by its decoder and re-encode identically, also for rule-breaking caller-built headers (refused or closed).",
+  "Map iteration inside fxamacker/cbor and reflect cannot be owned: order-independent oracle plus adversarial insertion order there; supported data model only.",
+  "deterministic simulation (tape-owned map iteration order via source instrumentation, repeated and cross-process encodes, reference canonical-form predicate)", "3/C08")
+claimed("C16", "exploration",
+  "Two seams: an HSM stub behind crypto.Signer returns chosen (r, s) from the boundary classes or mangled ASN.1 (buggify: legal-but-rare dependency behaviour), the native path runs under searched entropy; a format-translating middlebox presents DER / stripped / extended / off-length variants to the verifier. Output must be fixed-width r||s on all three curves, both paths byte-compatible, and only the exact form of a valid signature verifies.",
+  "Trusts Go crypto/ecdsa and math/big.",
+  "deterministic simulation with fault injection (HSM stub, searched entropy, signature-translating middlebox)", "3/C16")
+claimed("C18", "exploration",
+  "Deterministic schedule exploration: caller tasks share messages, keys, verifiers and a signer; a tape-drawn schedule decides the running task at each of ~1250 yield points inserted before every statement of go-cose in a scratch copy. Oracles: deep snapshots unchanged at scheduler steps, results equal to sequential execution, and a race-detector build of the same runs in which the hand-off between tasks is invisible to the detector (any conflicting write is reported whatever interleaving ran, and replays).",
+  "Preemption inside dependencies is not explored; the race detector is trusted for what it instruments.",
+  "deterministic simulation (seeded schedules over instrumented yield points, snapshot monitors, race detector under a serialised deterministic schedule)", "3/C18")
+claimed("C19", "exploration",
+  "Decode histories of a server that reuses destination variables and network buffers: LOAD/DECODE/SCRIBBLE/ENCODE sequences over valid, damaged and foreign-kind inputs; reference model = fresh decode of a pristine copy of the last good input; atomicity on failure; address-based no-aliasing check against every harness buffer and earlier output.",
+  "Deep snapshots are taken as what a reader can observe.",
+  "deterministic simulation (seeded operation histories with buffer-reuse and scribble faults against a reference model)", "3/C19")
+claimed("C20", "fault_enumeration",
+  "Every assignment of {ok, signer error, empty / nil signature, bytes-with-error, HSM error, bad DER, entropy error at byte k, short reads} to each signer call and {ok, verifier error} to each verifier call is enumerated for all 14 signing/verifying entry points with n <= 4 (7483 vectors), each under several tape-drawn contexts; oracle: error propagated with identity, no bytes, failing slot empty, message not serialisable, no later call made, nothing with an empty signature is ever emitted.",
+  "Exhaustive over the fault-vector dimension, sampled over contexts (headers, payload, keys, k).",
+  "deterministic simulation with exhaustive fault-vector enumeration (forced tape prefixes) and sampled contexts", "3/C20")
